@@ -4,6 +4,7 @@ CFG = {
     "batches": lambda tier, seed: [("classic", "-mode classic -tier %s" % tier),
                                    ("exhaustive", "-mode exhaustive -tier %s" % tier),
                                    ("random", "-mode random -tier %s" % tier),
+                                   ("boundary", "-mode boundary -tier %s" % tier),
                                    ("prec", "-mode prec -tier %s" % tier)],
     "signatures": {},
     "rule": "per reduced grammar: SLR, LALR and canonical LR construction under recover+watchdog; every table built is "
@@ -12,7 +13,7 @@ CFG = {
             "compared with the extracted driver run on the same table, with the extracted membership oracle, with rm_check "
             "and the AST yield. classic: textbook grammars on the SLR/LALR/LR(1)/non-LR boundaries incl. the D11a/D11b witnesses; "
             "exhaustive: all reduced grammars over {S},{S,A} x {a,b} with <=2 productions and a seeded 1/40 sample with 3; "
-            "random: <=4 non-terminals, <=4 terminals, <=8 productions with epsilon bodies; prec: E -> E op E | ( E ) | id for "
+            "boundary: seeded 1-2 step edits (add/drop/change/wrap/delete) of the SLR/LALR/LR(1) separating grammars; random: <=4 non-terminals, <=4 terminals, <=8 productions with epsilon bodies; prec: E -> E op E | ( E ) | id for "
             "<=3 operators x every ordered partition into levels x every associativity. "
             "A case is non-trivial when at least one table was built and the strings tried contain both an accepted and a rejected one; "
             "distinct = distinct (grammar, precedence, op count).",
